@@ -1,6 +1,6 @@
 """C18: the real date code canonically (`fix_date_format`, `parse_date`, `check_dates` with `misc.utc_now` patched),
-an independent reference written from the statement of the property (own scanner, own Gregorian calendar, own reader of
-data/timezones), the falsifier, and the correspondence streams (`date fix|instant|check`)."""
+an independent reference written from the statement of the property (own scanner, own Gregorian calendar, the zone abbreviations
+of the hand-maintained reference lean/I18n/Spec/TimezonesRef.lean — NOT of the tree's data/timezones), the falsifier, and the correspondence streams (`date fix|instant|check`)."""
 import collections, datetime, os, sys, types
 sys.path.insert(0, os.path.join(os.path.dirname(os.path.abspath(__file__)), '..'))
 import common
@@ -115,8 +115,9 @@ def impl_check(c):
 
 # ------------------------------------------------------------------ the reference (from the statement, not from the code)
 
-def read_timezones():
-    """own reader of data/timezones: abbreviation -> list of offsets"""
+def live_timezones():
+    """own reader of data/timezones of the tree under test: abbreviation -> list of offsets.  Used ONLY to enumerate inputs and for
+    abbreviations the reference does not know; what a reference abbreviation means is never taken from here"""
     tz = {}
     path = os.path.join(common.REPO, 'data', 'timezones')
     try:
@@ -132,16 +133,52 @@ def read_timezones():
                 if insec and '=' in line:
                     k, v = line.split('=', 1)
                     tz[k.strip()] = v.split()
-    except OSError:
+    except (OSError, UnicodeError):
         pass
     return tz
 
+REF_PATH = os.path.join(common.VERIF, 'lean', 'I18n', 'Spec', 'TimezonesRef.lean')
+
+def ref_timezones():
+    """the HAND-MAINTAINED reference of the zone abbreviations (tzdata 2014e): the rows of lean/I18n/Spec/TimezonesRef.lean — one
+    source of truth for the Lean pin `timezones_ref_pin` and for this falsifier.  abbreviation -> list of offsets"""
+    import re
+    table = {}
+    try:
+        text = open(REF_PATH, encoding='utf-8').read()
+    except OSError as exc:
+        raise common.Infra(f'reference table of zone abbreviations cannot be read: {exc}')
+    for line in text.split('\n'):
+        m = re.fullmatch(r'\s*\("([A-Za-z]+)", \[(.*)\]\)[,\]]\s*', line)
+        if m:
+            offs = re.findall(r'"([^"]*)"', m.group(2))
+            if m.group(1) in table or not offs or not all(re.fullmatch(r'[+-][0-9]{4}', o) for o in offs):
+                raise common.Infra(f'malformed row for {m.group(1)} in {REF_PATH}')
+            table[m.group(1)] = offs
+    if len(table) < 200:
+        raise common.Infra('reference table of zone abbreviations could not be read from ' + REF_PATH)
+    return table
+
+def reference_view(ref, live):
+    """the table the reference rules decide with.  An abbreviation the reference knows has stood for every offset the reference
+    lists (whatever the data file says — also when the data file dropped an offset or the abbreviation) and for any the data file
+    adds; an abbreviation only the data file knows is judged by the data file."""
+    view = {k: list(v) for k, v in live.items()}
+    for k, offs in ref.items():
+        view[k] = list(offs) + [o for o in live.get(k, []) if o not in offs]
+    return view
+
 _TZ = None
-def TZ():
+def tables():
+    """(reference, data file of the tree, reference view), read once"""
     global _TZ
     if _TZ is None:
-        _TZ = read_timezones()
+        ref, live = ref_timezones(), live_timezones()
+        _TZ = (ref, live, reference_view(ref, live))
     return _TZ
+
+def TZ():
+    return tables()[2]
 
 ASCII_DIGITS = '0123456789'
 def alldig(s):
@@ -328,7 +365,19 @@ def check_fix_property(s, hint):
     r3 = real_fix(t, hint)
     if hint is not None and ref_hint_ok(hint) and r3 != ('ok', t):
         return dict(base, kind='result is not a fixed point of normalisation (with the hint)', key='C18:fix-not-idempotent', second=list(r3))
+    comp = ref_components(s.strip())
+    abbr = comp[2][1] if comp is not None and comp[2][0] == 'abbr' else None
+    if abbr is not None:
+        base = dict(base, abbreviation=abbr, reference_offsets=tables()[0].get(abbr), data_file_offsets=tables()[1].get(abbr),
+                    reference_table='lean/I18n/Spec/TimezonesRef.lean (tzdata 2014e, hand-maintained)')
     if ref[0] != 'ok':
+        if abbr is not None and len(TZ()[abbr]) != 1:
+            refoffs = tables()[0].get(abbr) or []
+            if len(refoffs) == 1 and t[16:] not in refoffs:
+                return dict(base, kind=f'wrong offset: the zone abbreviation {abbr} means {refoffs[0]} (reference table), the date is normalised to {t[16:]}',
+                            key=f'C18:abbr-wrong-offset:{abbr}')
+            return dict(base, kind=f'accepted-although-ambiguous: the zone abbreviation {abbr} has stood for {" ".join(TZ()[abbr])}, '
+                                   f'the date is normalised to {t[16:]} instead of being rejected', key=f'C18:abbr-ambiguous-accepted:{abbr}')
         return dict(base, kind=f'accepted, the statement says {ref[1]}', key='C18:fix-accepts-invalid')
     if ref[1] != t:
         return dict(base, kind='date, time or offset written in the input not kept', key='C18:fix-not-preserved')
@@ -351,8 +400,8 @@ def check_tags_property(c):
 # ------------------------------------------------------------------ inputs
 
 def abbreviations():
-    tz = TZ()
-    return sorted(tz) or ['CET', 'CEST', 'EST']
+    """every abbreviation of BOTH tables (the reference's and the tree's data file)"""
+    return sorted(TZ())
 
 def unescape(s):
     import re
